@@ -1889,6 +1889,9 @@ func c11witnesses() [][]string {
 		{"case model 3", "colstyle 2 4 1", "setrow " + hx("A1") + " 2,0,0,0 i1 i2 C3,-,i3 C0,-,i4 n i6", "setrow " + hx("B2") + " - i1 C3,-,i2 C0,-,i3 i4", "flush"},
 		// a rejected FIRST row after column widths and panes, then accepted rows
 		{"case model 0", "colwidth 1 2 80", "panes 1,0,1", "setrow " + hx("XFD1") + " - i1 i2", "setrow " + hx("A1") + " 0,2000,0,0 i1", "setrow " + hx("A1") + " - i1 i2", "setrow " + hx("A2") + " - i3", "flush"},
+		// a FIRST row rejected mid-way by an over-long rich text (cells already written, pre-data written, latch set,
+		// all rolled back), then the same row number accepted, another row, Flush
+		{"case model 0", "setrow " + hx("A1") + " - i2 RE i3", "setrow " + hx("A1") + " - i4", "setrow " + hx("B2") + " - i5", "flush"},
 		// Cell / *Cell carrying a formula AND a cached value of every kind (string, []byte, bool, numbers, nil)
 		{"case model 1", "setrow 4131 - C0,413226227922,s7879 P0,555050455228222078202229,y205820 C0,313e32,b0 P1,323e31,b1 C0,322b33,i5 P0,322b33,u5 C1,312f34,F3fd0000000000000 C0,4e4f572829,n P0,4131,s- C0,4231,s3c6126623e0d0a", "flush"},
 		{"case model 0", "setrow 4131 - C0,4132,s615f78303030445f62 C0,4132,y780779", "flush"},
